@@ -22,9 +22,10 @@ Init == names = <<>> /\ phase = "gen" /\ eofAny = FALSE /\ toks = <<>> /\ ti = 0
 Gen == /\ phase = "gen" /\ Len(names) < MaxLen
        /\ \E n \in MCAlpha : (n = "shebang" => names = <<>>) /\ names' = Append(names, n)
        /\ UNCHANGED <<phase, eofAny, toks, ti, st>>
-Start == /\ phase = "gen" /\ Defined(Pieces(names, MCFmt), MCFmt)
+Start == /\ phase = "gen" /\ LET ps == Pieces(names, MCFmt) IN Defined(ps, MCFmt)
          /\ \E b \in BOOLEAN : eofAny' = b
-         /\ toks' = Lex(Pieces(names, MCFmt)) /\ ti' = 1 /\ st' = PS0(Len(toks')) /\ phase' = "parse"
+         /\ LET tk == Lex(Pieces(names, MCFmt)) IN toks' = tk /\ st' = PS0(Len(tk))
+         /\ ti' = 1 /\ phase' = "parse"
          /\ UNCHANGED names
 
 Parsing == phase = "parse" /\ ti <= Len(toks)
@@ -43,26 +44,26 @@ Next == Gen \/ Start \/ NewLineCut \/ NewLineKeep \/ EofCut \/ EofKeep \/ SameLi
 
 Out == EmitFrom(toks, st.cuts, 1)
 \* design-level result, one invariant per reading of the trigger
-EnvelopeAsWritten == (phase = "done" /\ eofAny)  => InEnvelope(Pieces(names, MCFmt), Out)
-EnvelopeTextOnly  == (phase = "done" /\ ~eofAny) => InEnvelope(Pieces(names, MCFmt), Out)
+InEnv == LET ps == Pieces(names, MCFmt) o == Out IN InEnvelope(ps, o)
+EnvelopeAsWritten == (phase = "done" /\ eofAny)  => InEnv
+EnvelopeTextOnly  == (phase = "done" /\ ~eofAny) => InEnv
 \* the emitter slices Text[Left : len-Right]: the cuts never overlap
 SliceInRange == phase = "done" => CutsInRange(toks, st.cuts)
 \* the action-wise machine and the functional form used by Trace_Cut are the same machine
-SameAsFunctional == phase = "done" => Out = ModelOut(Pieces(names, MCFmt), eofAny)
+SameAsFunctional == phase = "done" => LET ps == Pieces(names, MCFmt) IN Out = ModelOut(ps, eofAny)
 
 (* ---- case export ---- *)
 ShebangFirst(ns) == \A i \in DOMAIN ns : ns[i] = "shebang" => i = 1
-StructSeqs == {ns \in SeqsUpTo(GenAlpha, GenLen) : ShebangFirst(ns) /\ StructDefined(Pieces(ns, "txt"))}
-GenPairs == SetToSeq({pr \in StructSeqs \X Fmts : ShowOk(Pieces(pr[1], pr[2]), pr[2])})
-Cases == [c \in 1..Len(GenPairs) |-> [id |-> c, fmt |-> GenPairs[c][2], pieces |-> Pieces(GenPairs[c][1], GenPairs[c][2])]]
+\* (names only; checks/c15.py assembles the pieces from the exported catalogue - a lookup, no judgement)
+Cases == LET SS == {ns \in SeqsUpTo(GenAlpha, GenLen) : ShebangFirst(ns) /\ StructDefined(Pieces(ns, "txt"))}
+             GP == SetToSeq({pr \in SS \X Fmts : ShowOk(Pieces(pr[1], pr[2]), pr[2])})
+         IN [c \in 1..Len(GP) |-> [id |-> c, fmt |-> GP[c][2], names |-> GP[c][1]]]
 \* the whole catalogue at every position and format, for the seeded longer sequences assembled by checks/c15.py
-CatNames == SetToSeq(AllNames)
-NF == Len(AllFmts)
-CatEntry(c) == LET ai == ((c - 1) \div (9 * NF)) + 1
-                   pi == (((c - 1) \div NF) % 9) + 1
-                   fi == ((c - 1) % NF) + 1
-               IN [name |-> CatNames[ai], pos |-> pi, fmt |-> AllFmts[fi], piece |-> Piece(CatNames[ai], pi, AllFmts[fi])]
-Catalogue == [c \in 1..(Len(CatNames) * 9 * NF) |-> CatEntry(c)]
+CatEntry(CN, NF, c) == LET ai == ((c - 1) \div (9 * NF)) + 1
+                           pi == (((c - 1) \div NF) % 9) + 1
+                           fi == ((c - 1) % NF) + 1
+                       IN [name |-> CN[ai], pos |-> pi, fmt |-> AllFmts[fi], piece |-> Piece(CN[ai], pi, AllFmts[fi])]
+Catalogue == LET CN == SetToSeq(AllNames) NF == Len(AllFmts) IN [c \in 1..(Len(CN) * 9 * NF) |-> CatEntry(CN, NF, c)]
 ASSUME ndJsonSerialize("cases.ndjson", Cases)
 ASSUME ndJsonSerialize("catalogue.ndjson", Catalogue)
 =============================================================================
